@@ -349,11 +349,16 @@ open_dump(kdump_ctx_t *ctx)
 		ret = ctx->shared->ops->probe(ctx);
 		if (ret == KDUMP_OK)
 			return finish_open_dump(ctx);
+
+		/* Undo everything the failed probe may have left behind,
+		 * no matter whether the format was recognized or not.
+		 * Attribute overrides live inside the format's private
+		 * data, so they must be removed before that data is freed.
+		 */
+		if (ctx->shared->ops->attr_cleanup)
+			ctx->shared->ops->attr_cleanup(ctx->dict);
 		if (ctx->shared->ops->cleanup)
 			ctx->shared->ops->cleanup(ctx->shared);
-		if (ret != KDUMP_NOPROBE)
-			return ret;
-
 		ctx->shared->ops = NULL;
 		if (ctx->shared->cache) {
 			/* cache.hits and cache.misses live in the cache */
@@ -363,6 +368,9 @@ open_dump(kdump_ctx_t *ctx)
 			ctx->shared->cache = NULL;
 		}
 		clear_volatile_attrs(ctx);
+		set_addrspace_caps(ctx->xlat, 0);
+		if (ret != KDUMP_NOPROBE)
+			return ret;
 		clear_error(ctx);
 	}
 
